@@ -136,6 +136,9 @@ fn main() {
     let mut fs: Option<Fs> = None;
     let mut out = String::new();
     let mut root_off: usize = 0;
+    let mut fat_off: usize = 0;
+    let mut fat_len: usize = 0;
+    let mut is32 = false;
     for line in stdin.lock().lines() {
         let line = line.unwrap();
         let parts: Vec<&str> = line.split(' ').collect();
@@ -143,15 +146,30 @@ fn main() {
         match parts[0] {
             "H" => {
                 let kind: u32 = arg(2).parse().unwrap_or(0);
-                let (sectors, rootent, ft) = if kind == 0 { (400u32, 32u16, fatfs::FatType::Fat12) } else { (5000u32, 512u16, fatfs::FatType::Fat16) };
+                // kinds 2 and 3: tables of more than 64 KiB (FAT16 with 40000 clusters, FAT32)
+                let (sectors, rootent, ft) = match kind {
+                    0 => (400u32, 32u16, fatfs::FatType::Fat12),
+                    1 => (5000u32, 512u16, fatfs::FatType::Fat16),
+                    2 => (40_000u32, 512u16, fatfs::FatType::Fat16),
+                    _ => (70_000u32, 0u16, fatfs::FatType::Fat32),
+                };
                 let buf = std::rc::Rc::new(std::cell::RefCell::new(vec![0xD1u8; sectors as usize * 512]));
                 let mut dev = Dev { data: buf.clone(), pos: 0 };
-                fatfs::format_volume(&mut dev, fatfs::FormatVolumeOptions::new().total_sectors(sectors).bytes_per_cluster(512).max_root_dir_entries(rootent).fat_type(ft).fats(2)).expect("format");
-                // root directory offset = (reserved 1 + 2 FATs) * 512, read from the BPB
+                let mut fo = fatfs::FormatVolumeOptions::new().total_sectors(sectors).bytes_per_cluster(512).fat_type(ft).fats(2);
+                if rootent != 0 {
+                    fo = fo.max_root_dir_entries(rootent);
+                }
+                fatfs::format_volume(&mut dev, fo).expect("format");
+                // root directory offset, read from the BPB: (reserved + 2 FATs) * 512 (FAT32: cluster 2 behind them)
                 {
                     let d = buf.borrow();
-                    let spf = u16::from_le_bytes([d[22], d[23]]) as usize;
-                    root_off = (1 + 2 * spf) * 512;
+                    let rsvd = u16::from_le_bytes([d[14], d[15]]) as usize;
+                    let spf16 = u16::from_le_bytes([d[22], d[23]]) as usize;
+                    let spf = if spf16 != 0 { spf16 } else { u32::from_le_bytes([d[36], d[37], d[38], d[39]]) as usize };
+                    root_off = (rsvd + 2 * spf) * 512;
+                    fat_off = rsvd * 512;
+                    fat_len = spf * 512;
+                    is32 = spf16 == 0;
                 }
                 let dev = Dev { data: buf.clone(), pos: 0 };
                 fs = Some(fatfs::FileSystem::new(dev, fatfs::FsOptions::new().time_provider(fatfs::NullTimeProvider::new())).expect("mount"));
@@ -162,6 +180,34 @@ fn main() {
                 drop(fs.take());
                 let h = fnv(&data.as_ref().unwrap().borrow());
                 out.push_str(&format!("IMG {:016x}\n", h));
+            }
+            "X" => {
+                // FAT32: what another writer may leave - reserved upper bits in free table entries (both copies) and an
+                // "unknown" free count in the information sector; remount
+                drop(fs.take());
+                if is32 {
+                    let mut d = data.as_ref().unwrap().borrow_mut();
+                    for c in 0..40usize {
+                        let cl = 2000 + c * 7;
+                        for copy in 0..2usize {
+                            let o = fat_off + copy * fat_len + cl * 4;
+                            if d[o] == 0 && d[o + 1] == 0 && d[o + 2] == 0 && d[o + 3] & 0x0F == 0 {
+                                d[o + 3] |= 0xA0;
+                            }
+                        }
+                    }
+                    d[512 + 488..512 + 492].copy_from_slice(&0xFFFF_FFFFu32.to_le_bytes());
+                }
+                let dev = Dev { data: data.as_ref().unwrap().clone(), pos: 0 };
+                fs = Some(fatfs::FileSystem::new(dev, fatfs::FsOptions::new().time_provider(fatfs::NullTimeProvider::new())).expect("mount"));
+                out.push_str("X\n");
+            }
+            "S" => {
+                let f = fs.as_ref().expect("history started");
+                match f.stats() {
+                    Ok(st) => out.push_str(&format!("S {} {} {}\n", st.total_clusters(), st.free_clusters(), st.cluster_size())),
+                    Err(e) => out.push_str(&format!("S ERR:{}\n", err_name(&e))),
+                }
             }
             "G" => {
                 // raw slots into the root directory region; remount so nothing is cached
